@@ -6,6 +6,7 @@ import (
 	"bytes"
 	"context"
 	"fmt"
+	"io"
 	"os"
 	"path/filepath"
 	"runtime"
@@ -54,7 +55,7 @@ func init() {
 		Phases:      phases,
 		Run:         run,
 		Floors: func(t string) map[string]int64 {
-			return map[string]int64{"runs.free": 1000, "runs.perturbed": 300, "runs.forced": 200, "window.forced_observed": 100, "window.handshake_runs": 100, "doc.tiny": 8, "doc.negative_ids": 8, "doc.ids_beyond_2^40": 8, "keep.tags": 100, "keep.tags.empty_string_among_wanted_values": 15, "doc.with_a_rejected_element": 1, "doc.way_without_nodes": 30, "doc.empty_member_shared_by_two_relations": 8, "doc.relation_without_members": 15, "keep.bounds": 100, "keep.all": 100,
+			return map[string]int64{"runs.free": 1000, "reader.not_at_its_start_when_handed_over": 500, "runs.perturbed": 300, "runs.forced": 200, "window.forced_observed": 100, "window.handshake_runs": 100, "doc.tiny": 8, "doc.negative_ids": 8, "doc.ids_beyond_2^40": 8, "keep.tags": 100, "keep.tags.empty_string_among_wanted_values": 15, "doc.with_a_rejected_element": 1, "doc.way_without_nodes": 30, "doc.empty_member_shared_by_two_relations": 8, "doc.relation_without_members": 15, "keep.bounds": 100, "keep.all": 100,
 				"order.shuffled": 8, "order.ways_first": 3, "order.reverse_cascade": 3, "doc.cascade": 20, "doc.relation_cycle": 5, "doc.dangling": 1, "filter.checked": 100, "gomaxprocs.16": 50, "format.pbf": 300, "format.xml": 1000}
 		},
 	})
@@ -851,6 +852,10 @@ func run(c *core.Ctx, idx int) {
 			}
 		}
 		_ = nXML
+		// one reader per format shared by the runs below: a caller may hand over a reader that is
+		// not positioned at its start (the same file used for a second extraction, or read by
+		// something else before); the document is the whole of it all the same
+		xmlRd, pbfRd := bytes.NewReader(xmlBytes), bytes.NewReader(pbfBytes)
 		for _, sc := range scheds {
 			c.Eval()
 			if sc.pbf {
@@ -876,11 +881,27 @@ func run(c *core.Ctx, idx int) {
 			if sc.pbf {
 				detail["format"] = "pbf (same document, one block per run of same-kind elements)"
 			}
+			rd := xmlRd
+			if sc.pbf {
+				rd = pbfRd
+			}
+			switch c.R.Intn(3) {
+			case 0:
+				rd.Seek(0, io.SeekStart)
+			case 1:
+				// wherever the previous run left it (the end, as a rule)
+			default:
+				rd.Seek(int64(c.R.Intn(int(rd.Size())+1)), io.SeekStart)
+			}
+			if pos, _ := rd.Seek(0, io.SeekCurrent); pos != 0 {
+				c.Count("reader.not_at_its_start_when_handed_over")
+				detail["reader"] = fmt.Sprintf("positioned at offset %d of %d when handed over", pos, rd.Size())
+			}
 			panicked := c.Guard("Extract", detail, func() {
 				if sc.pbf {
-					data, err = gosm.ExtractPBF(context.Background(), bytes.NewReader(pbfBytes), k.fn(d), true)
+					data, err = gosm.ExtractPBF(context.Background(), rd, k.fn(d), true)
 				} else {
-					data, err = gosm.ExtractXML(context.Background(), bytes.NewReader(xmlBytes), k.fn(d), true)
+					data, err = gosm.ExtractXML(context.Background(), rd, k.fn(d), true)
 				}
 			})
 			runtime.GOMAXPROCS(prev)
